@@ -232,6 +232,27 @@ func cmdCheck(args []string) int {
 		if rerr != nil {
 			inconclusive = append(inconclusive, h.Func+": native replay failed: "+rerr.Error())
 		}
+		// the native build iterates maps in random order: an assertion that did not
+		// fail is retried a few times before it counts as not reproduced
+		for attempt := 0; attempt < 4 && rerr == nil; attempt++ {
+			var again []ReplayCase
+			for k, v := range res.Violations {
+				id := fmt.Sprintf("v%d", k)
+				if o, ok := outcomes[id]; ok && v.Kind == "assert" && o.Outcome == "ok" {
+					again = append(again, ReplayCase{ID: id, Harness: h.Func, Model: v.Model, Known: knownIDs, Params: tier.Params})
+				}
+			}
+			if len(again) == 0 {
+				break
+			}
+			more, err2 := nativeReplay(h.Pkg, again, watchdog, false)
+			if err2 != nil {
+				break
+			}
+			for id, o := range more {
+				outcomes[id] = o
+			}
+		}
 		for k, v := range res.Violations {
 			o, ok := outcomes[fmt.Sprintf("v%d", k)]
 			if !ok {
